@@ -140,6 +140,39 @@ type pathEnd struct {
 	msg  string
 }
 
+type engineBug string
+
+// GOSYM_PROFILE=1: instruction counts per interpreted function are printed to stderr when the process ends (ProfileDump)
+var profSteps map[string]int64
+var profMu sync.Mutex
+
+func init() {
+	if os.Getenv("GOSYM_PROFILE") != "" {
+		profSteps = map[string]int64{}
+	}
+}
+
+func ProfileDump() {
+	if profSteps == nil {
+		return
+	}
+	type kv struct {
+		k string
+		v int64
+	}
+	var l []kv
+	for k, v := range profSteps {
+		l = append(l, kv{k, v})
+	}
+	sort.Slice(l, func(i, j int) bool { return l[i].v > l[j].v })
+	for i, e := range l {
+		if i >= 40 {
+			break
+		}
+		fmt.Fprintf(os.Stderr, "profile %10d %s\n", e.v, e.k)
+	}
+}
+
 type goPanic struct {
 	v     value
 	msg   string
@@ -534,6 +567,7 @@ type frame struct {
 	panicVal  interface{}
 	visits    map[*ssa.BasicBlock]int
 	lastSym   map[*ssa.BasicBlock]int
+	lits      *fnLits // constant array literals of fn (only for large functions, see fastinit.go)
 }
 
 func (fr *frame) get(key ssa.Value) value {
@@ -737,6 +771,11 @@ func (in *Interp) callSSA(caller *frame, fn *ssa.Function, args []value, env []v
 		in.res.Functions[name] = true
 	}
 	fr := &frame{in: in, caller: caller, fn: fn, env: make(map[ssa.Value]value), block: fn.Blocks[0], visits: map[*ssa.BasicBlock]int{}}
+	if len(fn.Blocks) > 0 && len(fn.Blocks[0].Instrs) > 256 || fn.Name() == "init" {
+		if fl := literalInfo(fn); len(fl.allocs) > 0 {
+			fr.lits = fl
+		}
+	}
 	fr.locals = make([]value, len(fn.Locals))
 	for i, l := range fn.Locals {
 		fr.locals[i] = in.zero(deref(l.Type()))
@@ -790,7 +829,16 @@ func (in *Interp) runFrame(fr *frame) {
 		}
 		gp, ok := r.(goPanic)
 		if !ok {
-			panic(r) // engine bug
+			// engine bug: add the interpreted call stack to the message (once, at the innermost frame)
+			if _, done := r.(engineBug); !done {
+				n := len(in.stack)
+				lo := n - 8
+				if lo < 0 {
+					lo = 0
+				}
+				r = engineBug(fmt.Sprintf("%v [ssa stack: %s]", r, strings.Join(in.stack[lo:], " > ")))
+			}
+			panic(r)
 		}
 		if gp.stack == "" {
 			n := len(in.stack)
@@ -839,7 +887,15 @@ func (in *Interp) runFrame(fr *frame) {
 			fr.env[b.Instrs[i].(*ssa.Phi)] = phis[i]
 		}
 		jumped := false
+		if profSteps != nil {
+			profMu.Lock()
+			profSteps[fr.fn.String()] += int64(len(b.Instrs))
+			profMu.Unlock()
+		}
 		for _, instr := range b.Instrs[nphi:] {
+			if fr.lits != nil && fr.lits.skip[instr] {
+				continue // constant array literal element, applied in bulk at the Alloc (fastinit.go)
+			}
 			in.steps++
 			in.res.Stats.Steps++
 			if in.steps > in.cfg.MaxSteps {
@@ -997,6 +1053,9 @@ func (in *Interp) visitInstr(fr *frame, instr ssa.Instruction) continuation {
 			addr = fr.env[instr].(*value)
 		}
 		*addr = in.zero(deref(instr.Type()))
+		if fr.lits != nil && instr.Heap {
+			in.bulkInit(fr.lits, instr, addr)
+		}
 	case *ssa.MakeSlice:
 		ln := fr.get(instr.Len).(*smt.Term)
 		cp := fr.get(instr.Cap).(*smt.Term)
